@@ -239,6 +239,11 @@ class Engine(
                     # in putting those upstream of this operation, so we also
                     # add a nested subquery here.
                     return Select.apply_skip(operation._finish_apply(select))
+                elif tag in select.skip_to.columns:
+                    # A column with this tag exists upstream of the Select's
+                    # projection (which removed it); the new column cannot be
+                    # calculated alongside it, so it needs a nested subquery.
+                    return Select.apply_skip(operation._finish_apply(select))
                 elif select.has_projection:
                     return select.reapply_skip(
                         after=operation,
